@@ -167,6 +167,9 @@ struct Input {
 };
 static Input* g_in = nullptr;
 static Tracker g_trk;
+static vf::Rng* g_rng = nullptr;  // random mode: decisions are drawn at consult time from the full byte domain
+static std::string randomDeliv(const Tracker& t);
+static std::string randomEcho(const Tracker& t, uint8_t w);
 
 // ---------------------------------------------------------------- fake transport
 struct FakeTransport : public Transport {
@@ -202,6 +205,7 @@ struct FakeTransport : public Transport {
   }
   std::string decideEcho(uint8_t w) {
     std::string e = "s";
+    if (g_in && g_rng) { g_in->usedEcho = true; g_in->echo = randomEcho(g_trk, w); return g_in->echo; }
     if (g_in && !g_in->usedEcho) { g_in->usedEcho = true; g_in->echoW.assign(1, w); g_in->echoT = g_trk; e = g_in->echo; }
     return e;
   }
@@ -248,7 +252,8 @@ struct FakeTransport : public Transport {
     if (buf.empty()) {
       if (timeout == 0) return RESULT_ERR_TIMEOUT;
       std::string d = "to";
-      if (g_in && !g_in->usedDeliv) { g_in->usedDeliv = true; g_in->delivT = g_trk; d = g_in->deliv; g_in->lateEcho = lateEchoByte(); }
+      if (g_in && g_rng) { g_in->usedDeliv = true; d = g_in->deliv = randomDeliv(g_trk); }
+      else if (g_in && !g_in->usedDeliv) { g_in->usedDeliv = true; g_in->delivT = g_trk; d = g_in->deliv; g_in->lateEcho = lateEchoByte(); }
       if (d == "to" || d == "tl") {
         g_ms += timeout; g_trk.silence();
         if (d == "tl") g_sec += 2;
@@ -495,7 +500,15 @@ static bool doSubmit(ProtocolHandler* h, int r, const char* how) {
 // executes one edge described by its input token string; returns false if the token is not applicable in this state
 static bool execToken(const std::string& tok, Input* in) {
   g_ev.clear();
-  if (tok.compare(0, 4, "SUB=") == 0) return doSubmit(g_h, atoi(tok.c_str() + 4), "sub");
+  if (tok.compare(0, 4, "SUB=") == 0) {
+    int r = atoi(tok.c_str() + 4);
+    size_t c = tok.find(':');
+    if (c != std::string::npos && (g_reqs[r]->status == 0 || g_reqs[r]->status == 3)) {  // explicit content (replay of a random walk)
+      MasterSymbolString* m = g_masters[r]; m->clear();
+      for (uint8_t x : parseHexList(tok.c_str() + c + 1)) m->push_back(x);
+    }
+    return doSubmit(g_h, r, "sub");
+  }
   if (tok.compare(0, 5, "POLL=") == 0) {
     int r = atoi(tok.c_str() + 5); VReq* q = g_reqs[r];
     if (q->kind == 1 || (q->status != 1 && q->status != 2)) return false;
@@ -527,7 +540,6 @@ static bool execToken(const std::string& tok, Input* in) {
 }
 
 // ---------------------------------------------------------------- environment alphabets (bound the search only)
-static vf::Rng* g_rng = nullptr;  // random mode: full byte domain
 static void addU(std::vector<std::string>* o, const std::string& s) { if (std::find(o->begin(), o->end(), s) == o->end()) o->push_back(s); }
 static std::string h2(uint8_t x) { char b[4]; snprintf(b, 4, "%02x", x); return b; }
 
@@ -679,15 +691,79 @@ static int cmdReplay(const char* inPath, const char* outPath) {
   return 0;
 }
 
+// ---------------------------------------------------------------- random walk over the full byte domain
+static const uint8_t MASTERS[25] = {0x00,0x10,0x30,0x70,0xF0,0x01,0x11,0x31,0x71,0xF1,0x03,0x13,0x33,0x73,0xF3,0x07,0x17,0x37,0x77,0xF7,0x0F,0x1F,0x3F,0x7F,0xFF};
+static std::string randomDeliv(const Tracker& t) {
+  vf::Rng& r = *g_rng;
+  unsigned x = r.below(1000);
+  if (x < 12) return "to";
+  if (x < 15) return "tl";
+  if (x < 17 && C.readErr) return "er";
+  if (x < 40) return "aa";                                  // truncation by SYN at any position
+  auto any = [&]() { return h2((uint8_t)r.below(256)); };
+  if (t.esc) { unsigned y = r.below(20); return y < 9 ? "00" : y < 18 ? "01" : any(); }
+  switch (t.ph) {
+    case P_DEAD: case P_DONE: return r.chance(4, 5) ? "aa" : any();
+    case P_QQ: { unsigned y = r.below(20); return y < 3 ? "aa" : y < 18 ? h2(MASTERS[r.below(25)]) : any(); }
+    case P_ZZ: { unsigned y = r.below(20); return y < 4 ? "fe" : y < 8 ? h2(MASTERS[r.below(25)]) : y < 10 ? h2(C.own) : y < 12 ? h2((uint8_t)(C.own + 5)) : y < 13 ? h2(t.qq) : any(); }
+    case P_PB: case P_SB: return r.chance(1, 2) ? (t.ph == P_PB ? h2(C.pbs[0]) : h2(C.sbs[0])) : any();
+    case P_NN: case P_SNN: { unsigned y = r.below(20); return y < 8 ? h2((uint8_t)r.below(3)) : y < 18 ? h2((uint8_t)r.below(17)) : y < 19 ? "11" : any(); }
+    case P_DATA: case P_SDATA: { unsigned y = r.below(20); return y < 3 ? "a9" : any(); }
+    case P_CRC: case P_SCRC: { uint8_t good = t.crc; if (r.chance(1, 8)) return any(); return (good == ESC || good == SYN) ? "a9" : h2(good); }
+    case P_ACK: case P_SACK: { unsigned y = r.below(20); return y < 14 ? "00" : y < 18 ? "ff" : any(); }
+  }
+  return "aa";
+}
+static std::string randomEcho(const Tracker& t, uint8_t w) {
+  vf::Rng& r = *g_rng;
+  if (t.ph == P_QQ && !t.mrep && isMaster(w)) {
+    unsigned y = r.below(10); uint8_t o = MASTERS[r.below(25)];
+    if (o == w) o = MASTERS[(r.below(24) + 1 + (unsigned)(std::find(MASTERS, MASTERS + 25, w) - MASTERS)) % 25];  // a different master wins
+    return y < 6 ? "s" : y < 9 ? "x" + h2(o) : "n";
+  }
+  unsigned y = r.below(100); return y < 96 ? "s" : y < 98 ? "x" + h2((uint8_t)r.below(256)) : "n";
+}
+static int cmdRandom(const char* outPath, long steps) {
+  vf::Out out(outPath);
+  vf::Rng rng(vf::seedFromEnv());
+  long id = 1;
+  for (long k = 0; k < steps; k++) {
+    std::string tk;
+    Input in;
+    unsigned x = rng.below(100);
+    bool done = false;
+    if (x < 12 && !g_reqs.empty()) {   // client submits a request with fresh random content
+      int r = (int)rng.below((unsigned)g_reqs.size());
+      VReq* q = g_reqs[r];
+      if (q->status == 0 || q->status == 3) {
+        MasterSymbolString* m = g_masters[r]; m->clear();
+        unsigned y = rng.below(10); unsigned nn = rng.chance(1, 4) ? rng.below(17) : rng.below(4);
+        m->push_back(C.own); m->push_back(y < 3 ? 0xFE : y < 5 ? MASTERS[rng.below(25)] : (uint8_t)(rng.chance(1, 2) ? 0x15 : rng.below(256)));
+        if ((*m)[1] == SYN || (*m)[1] == ESC || (*m)[1] == C.own) (*m)[1] = 0x08;
+        m->push_back(C.pbs[0]); m->push_back(C.sbs[0]); m->push_back((uint8_t)nn);
+        for (unsigned i = 0; i < nn; i++) m->push_back(rng.chance(1, 5) ? (rng.chance(1, 2) ? 0xA9 : 0xAA) : (uint8_t)rng.below(256));
+        tk = "SUB=" + std::to_string(r) + ":" + hexs(std::vector<uint8_t>(m->data(), m->data() + m->size())); done = execToken(tk, &in);
+      }
+    }
+    if (!done) { g_rng = &rng; tk = ""; execToken(tk, &in); g_rng = nullptr; tk = in.str(); }
+    out.raw("{\"id\":" + std::to_string(id) + ",\"succ\":[{\"in\":\"" + tk + "\",\"ev\":[" + g_ev + "],\"to\":" + std::to_string(id + 1) + "}]}\n");
+    id++;
+  }
+  out.raw("{\"id\":" + std::to_string(id) + ",\"succ\":[]}\n");
+  printf("{\"nodes\":%ld,\"edges\":%ld,\"fixpoint\":true,\"random\":true}\n", id, id - 1);
+  return 0;
+}
+
 int main(int argc, char** argv) {
   vf::installTerminate();
   setFacilitiesLogLevel(0xffff, ll_none);
-  if (argc < 3) { fprintf(stderr, "usage: proto graph|replay|random out.ndjson [tokens|steps] key=value...\n"); return 2; }
+  if (argc < 3) { fprintf(stderr, "usage: proto graph out.ndjson key=value... | replay out.ndjson tokens.txt key=value... | random out.ndjson steps key=value...\n"); return 2; }
   std::string mode = argv[1];
   int first = mode == "graph" ? 3 : 4;
   for (int i = first; i < argc; i++) parseArg(argv[i]);
   construct();
   if (mode == "graph") return cmdGraph(argv[2]);
   if (mode == "replay") return cmdReplay(argv[3], argv[2]);
+  if (mode == "random") return cmdRandom(argv[2], atol(argv[3]));
   return 2;
 }
